@@ -38,6 +38,8 @@ def gzipPiece (g : GoReq) : List (Bytes × List Bytes) :=
 def proxyAuthPiece (hop : Hop) (auth : Option Bytes) (g : GoReq) : List (Bytes × List Bytes) :=
   match hop, auth with
   | .proxy _, some a => if g.scheme == bs "http" then [(bs "proxy-authorization", [a])] else []
+  | .tlsProxy _, some a => if g.scheme == bs "http" then [(bs "proxy-authorization", [a])] else []
+  | .otherProxy _ _, some a => if g.scheme == bs "http" then [(bs "proxy-authorization", [a])] else []
   | _, _ => []
 
 /-- target the hop receives -/
@@ -46,6 +48,9 @@ def targetOf (hop : Hop) (g : GoReq) : Bytes :=
   | .direct _ => requestURI g
   | .proxy _ => if g.scheme == bs "http" then g.scheme ++ bs "://" ++ g.host ++ requestURI g
                 else requestURI g
+  | .socks _ => requestURI g
+  | .tlsProxy _ | .otherProxy _ _ =>
+    if g.scheme == bs "http" then g.scheme ++ bs "://" ++ g.host ++ requestURI g else requestURI g
 
 def framingOf (g : GoReq) : Nat :=
   if g.chunked then 2
@@ -146,10 +151,11 @@ theorem vals_proxyAuthPiece_ne (hop : Hop) (auth : Option Bytes) (g : GoReq) {n 
     (hn : n ≠ bs "proxy-authorization") : vals (proxyAuthPiece hop auth g) n = [] := by
   unfold proxyAuthPiece
   split
-  · split
-    · exact vals_single_ne _ (Ne.symm hn)
-    · rfl
-  · rfl
+  all_goals first
+    | (split
+       · exact vals_single_ne _ (Ne.symm hn)
+       · rfl)
+    | rfl
 
 theorem writerExcluded_lower : ∀ k ∈ writerExcluded, lower k ∈ writerNames := by decide +kernel
 
